@@ -545,8 +545,27 @@ func genHistory(g *genCtx, profile string) {
 	if r.Chance(50) {
 		maxblk = maxtxn * uint64(1+r.Intn(3))
 	}
+	// three rule sets: unconfirmed pool (most lenient) >= block creation >= user submissions (strictest), as
+	// Config.Verify allows; in 45% of the histories they really differ
+	ubf, umax, uprec := g.burn, maxtxn, prec
+	cbf, cmax, cprec := g.burn, maxtxn, prec
+	if r.Chance(45) {
+		if g.burn > 2 {
+			ubf = 2 + r.U64()%(g.burn-1)
+			cbf = ubf + r.U64()%(g.burn-ubf+1)
+		}
+		if prec > 0 {
+			uprec = r.U64() % (prec + 1)
+			cprec = uprec + r.U64()%(prec-uprec+1)
+		}
+		if maxtxn > 1024 {
+			umax = 1024
+			cmax = []uint64{1024, 4096, maxtxn}[r.Intn(3)]
+		}
+	}
 	g.emit("reset arbF=" + strconv.Itoa(arbF) + " gc=" + u(gc) + " gt=" + u(gt) + " burn=" + u(g.burn) + " maxtxn=" + u(maxtxn) +
-		" maxblk=" + u(maxblk) + " prec=" + u(prec) + " ubf=" + u(g.burn) + " umax=" + u(maxtxn) + " uprec=" + u(prec))
+		" maxblk=" + u(maxblk) + " prec=" + u(prec) + " ubf=" + u(ubf) + " umax=" + u(umax) + " uprec=" + u(uprec) +
+		" cbf=" + u(cbf) + " cmax=" + u(cmax) + " cprec=" + u(cprec))
 	if world == nil {
 		return
 	}
